@@ -4,6 +4,7 @@ import Capella.Lemmas.XmlLayout
 import Capella.Gen.Exs
 import Capella.Lemmas.XmlNsUpdate
 import Capella.Gen.Ns
+import Capella.Lemmas.XmlBytes
 
 /-!
 # C01 — unmodified load-then-save reproduces Capella's files byte for byte
@@ -195,6 +196,37 @@ theorem declarations_are_used_namespaces (vps : List (Str × Str)) (d d' : Doc)
   rw [hmem b]
   exact scanGo_mem _ vps _ nsInit n hn b
 
+
+/-! ## The UTF-8 boundary: bytes of the tag, code points everywhere else -/
+
+/-- the width `_serialize_element` adds for the tag (`len(tag.encode("utf-8"))`) is the length of the
+byte sequence CPython's encoder produces (`encodeUtf8`, tied to `str.encode` by the stream `encode`) -/
+theorem tag_width_is_encoded_length (tag : Str) : utf8Len tag = (encodeUtf8 tag).length :=
+  utf8Len_eq_encode tag
+
+/-- **the column handed to the attribute loop**, for every tag, ASCII or not: it is the true column
+(counted in characters, as all other widths are) plus the number of continuation bytes of the tag … -/
+theorem tag_column_formula (pos : Nat) (tagS : Str) (hnl : '\n' ∉ tagS) :
+    pos + 1 + utf8Len tagS = colAfter pos ('<' :: tagS) + (utf8Len tagS - tagS.length) :=
+  stag_column pos tagS hnl
+
+/-- … hence exact for the tags Capella has (Ecore names, ASCII) and only for those: together with
+`wrap_column_exact` the whole start tag is laid out by its true columns. -/
+theorem tag_column_exact_iff_ascii (pos : Nat) (tagS : Str) (hnl : '\n' ∉ tagS) :
+    pos + 1 + utf8Len tagS = colAfter pos ('<' :: tagS) ↔ tagS.all isAscii = true := by
+  rw [stag_column pos tagS hnl, ← utf8Len_eq_length_iff]
+  have := utf8Len_ge_length tagS
+  omega
+
+/-- a non-ASCII tag is outside what Capella writes; there the writer breaks the line early (witness: the
+column after `<éééééééé a="1"` is 15 ≤ 20, the byte-based counter says 23 > 20) -/
+theorem nonascii_tag_breaks_early :
+    serialize 20 true [] true ⟨[], .mk "éééééééé".toList [] [("a".toList, "1".toList), ("b".toList, "2".toList)] none none [], []⟩
+      = "<éééééééé a=\"1\"\n    b=\"2\"/>\n".toList ∧
+    serialize 20 true [] true ⟨[], .mk "eeeeeeee".toList [] [("a".toList, "1".toList), ("b".toList, "2".toList)] none none [], []⟩
+      = "<eeeeeeee a=\"1\" b=\"2\"/>\n".toList := by
+  decide
+
 /-! ## The boundary of `wfDoc` (each clause excluded for a reason; witnesses) -/
 
 /-- Mixed content is outside the domain: the writer tests the *parent's* tail inside the child
@@ -281,5 +313,8 @@ def nsSampleVps : List (Str × Str) := [("org.polarsys.capella.core.viewpoint".t
 example : wfDoc nsSample = true ∧ Doc.beq (canonDoc nsSample) nsSample = true := by decide +kernel
 example : (match newNsmap Capella.Gen.Ns.plugins nsSampleVps nsSample.root with
     | .ok n => dictEq nsSample.root.nsdecls n | .error _ => false) = true := by decide +kernel
+
+example : encodeUtf8 "aé€😀".toList = [97, 195, 169, 226, 130, 172, 240, 159, 152, 128] := by decide
+example : utf8Len "aé€😀".toList = 10 ∧ "aé€😀".toList.length = 4 := by decide
 
 end Capella.Props.C01
